@@ -283,7 +283,12 @@ def run(ctx):
         if good != [[1001], [70003], [1050, 1051, 1052]]:
             raise core.HarnessError('fault-free proxy.read returned %r' % (good,))
         ptotal = relay.delivered
-        poffs = sorted(set(range(0, ptotal, 1 if ctx.thorough else 13)) | {28, 29, ptotal - 1})
+        pstream = relay.stream
+        pstarts, i = [], 0
+        while i < len(pstream):
+            pstarts.append(i); i += 24 + struct.unpack('<H', pstream[i + 2:i + 4])[0]
+        # every k-th offset, and the field boundaries of every reply's header (where an interrupted parse ends differently)
+        poffs = sorted(set(range(0, ptotal, 1 if ctx.thorough else 13)) | {28, 29, ptotal - 1} | {b + d for b in pstarts for d in (2, 4, 8, 12, 20, 24) if b + d < ptotal})
         for n in poffs:
             relay.limit, relay.mode = n, 'cut'
             via = proxy(host='127.0.0.1', port=relay.port, timeout=1.0, depth=2)
@@ -361,6 +366,56 @@ def run(ctx):
             finally:
                 relay.live = None
                 via.close_gateway()
+        # ---- poll.run on top of the proxy: a good poll, then the device changes and the next poll's replies are cut: the values of the
+        # good poll must not be handed to the consumer again as if they were the failed poll's; the poll after that reconnects and is right
+        from cpppo.server.enip import poll as P
+        for cut_after in ((5, 9, 24 + 30) if not ctx.thorough else (0, 5, 9, 24, 24 + 30, 60, 100)):
+            relay.live, relay.limit, relay.mode = None, None, 'cut'
+            with client.connector(host='127.0.0.1', port=port, timeout=3) as c0:
+                list(c0.operate(list(client.parse_operations(['SCADA[1]=(INT)1001', 'D[3]=(DINT)70003', 'SCADA[50-52]=(INT)1050,1051,1052'])), depth=0, timeout=3))
+            via = proxy(host='127.0.0.1', port=relay.port, timeout=1.0, depth=2)
+            seen, fails, polls = [], [], [0]
+
+            def process(par, val, seen=seen, polls=polls, fails=fails):
+                seen.append((len(fails), par, canon(val)))
+                if len([x for x in seen if x[0] == len(fails)]) == len(tags):
+                    polls[0] += 1
+                    if polls[0] == 1:
+                        # the device changes, and the next poll's replies will be cut
+                        with client.connector(host='127.0.0.1', port=port, timeout=3) as c1:
+                            list(c1.operate(list(client.parse_operations(['SCADA[1]=(INT)2001', 'D[3]=(DINT)80003', 'SCADA[50-52]=(INT)2050,2051,2052'])), depth=0, timeout=3))
+                        relay.live = relay.delivered + cut_after
+                    elif fails:
+                        process.done = True
+
+            def failure(exc, fails=fails):
+                fails.append(type(exc).__name__)
+                relay.live = None
+                if len(fails) > 3:
+                    process.done = True
+            wd = threading.Thread(target=lambda: (time.sleep(25), setattr(process, 'done', True)), daemon=True)
+            wd.start()
+            try:
+                P.run(via, process, failure=failure, cycle=0.05, backoff_min=0.05, latency=0.02, params=tags)
+            except Exception as e:
+                fails.append('run raised %s' % type(e).__name__)
+            finally:
+                relay.live = None
+                via.close_gateway()
+            ncut += 1
+            new = [[2001], [80003], [2050, 2051, 2052]]
+            w = dict(api='poll.run', cut_bytes_into_second_poll=cut_after, failures=fails, delivered_to_consumer=seen)
+            stale = [x for x in seen if x[0] >= 1 and x[2] in good and x[2] not in new]
+            if not fails:
+                bad(w, 'poll.run reported no failure although the second poll was cut')
+            elif stale:
+                bad(w, 'after a failed poll the consumer was handed the previous poll\'s values again (the device holds different ones)')
+            elif [x[2] for x in seen if x[0] == len(fails)][-len(tags):] != new:
+                bad(w, 'the poll after the failure did not reconnect and deliver the device\'s current values')
+            else:
+                nnontriv += 1
+        with client.connector(host='127.0.0.1', port=port, timeout=3) as c0:
+            list(c0.operate(list(client.parse_operations(['SCADA[1]=(INT)1001', 'D[3]=(DINT)70003', 'SCADA[50-52]=(INT)1050,1051,1052'])), depth=0, timeout=3))
         # ---- a bare proxy.list_identity() on an established gateway, its reply cut at every k-th offset: must raise, discard, reconnect
         relay.limit = None
         via = proxy(host='127.0.0.1', port=relay.port, timeout=1.0, depth=2)
